@@ -13,7 +13,7 @@ import sys
 from typing import Any, Callable
 
 from . import source
-from .api import REG, Contract, implies, init, last
+from .api import REG, Contract, fzero, implies, init, last
 
 REPO = source.REPO
 
@@ -41,11 +41,14 @@ class _OldRewriter(ast.NodeTransformer):
 		self.generic_visit(node)
 		if isinstance(node.func, ast.Name) and node.func.id == 'old':
 			return ast.Call(ast.Name('__old_eval__', ast.Load()), [ast.Constant(ast.unparse(node.args[0]))], [])
+		if isinstance(node.func, ast.Name) and node.func.id == 'implies' and len(node.args) == 2:
+			# lazy reading: the consequent is only evaluated when the antecedent holds
+			return ast.BoolOp(ast.Or(), [ast.UnaryOp(ast.Not(), node.args[0]), node.args[1]])
 		return node
 
 
 def native_ns(extra: dict[str, Any] | None = None) -> dict[str, Any]:
-	ns: dict[str, Any] = {'implies': implies, 'init': init, 'last': last}
+	ns: dict[str, Any] = {'implies': implies, 'init': init, 'last': last, 'fzero': fzero}
 	ns.update(REG.consts)
 	for name, sp in REG.specs.items():
 		ns[name] = sp.fn
@@ -89,9 +92,12 @@ def exc_names(e: BaseException) -> list[str]:
 
 def check_native(c: Contract, inputs: dict[str, Any], call: Callable[..., Any] | None = None) -> NativeOutcome:
 	"""Evaluate the contract on one concrete input against the real function."""
+	prep = REG.replays.get(f'{c.replay}__prep') if c.replay else None
+	if prep is not None:
+		inputs = prep(dict(inputs))
 	ns = native_ns({**c.consts, **dict(inputs)})
 	try:
-		for r in c.requires:
+		for r in c.requires + c.native_requires:
 			if not eval_clause(r, ns):
 				return NativeOutcome('pre-false', f'requires not satisfied: {r}')
 	except Exception as e:
